@@ -97,6 +97,8 @@ func c06FullAlphabet() []zone.Line {
 		{"SOA", zN("@"), zN("x.example."), zW("4294967295"), zW("0"), zW("1"), zW("2"), zW("3")},
 		{"NS", zN("ns")}, {"NS", zN("@")},
 		{"CNAME", zN("x.example.")}, {"CNAME", zN("a.b")},
+		// relative names whose text ends in an escaped dot (the dot belongs to the last label)
+		{"MX", zW("10"), zN(`mail\.`)}, {"CNAME", zN(`a\.b\.`)},
 	}
 	for _, t := range typed {
 		var rd []zone.Tok
@@ -105,7 +107,8 @@ func c06FullAlphabet() []zone.Line {
 		}
 		ls = append(ls, zRec("a", "5", "IN", false, t[0].(string), rd...), zRec("", "", "", false, t[0].(string), rd...))
 	}
-	ls = append(ls, zOrigin("sub"), zOrigin("o.test."), zOrigin("."))
+	ls = append(ls, zOrigin("sub"), zOrigin("o.test."), zOrigin("."), zOrigin(`esc\.`))
+	ls = append(ls, zRec(`h\.`, "5", "IN", false, "A", ip(250)))
 	for _, t := range c06TTLs {
 		ls = append(ls, zTTL(t))
 	}
@@ -180,7 +183,7 @@ func c06Spaces(c *fw.Ctx) {
 	}
 
 	full := c06FullAlphabet()
-	c.Space("prog-full2", fmt.Sprintf("all programs of 1 and 2 lines over the full line alphabet (%d lines: 5 owner spellings incl. omitted × 28 TTL/class headers incl. both orders; MX/TXT/SOA/NS/CNAME lines; $ORIGIN ×3, $TTL ×5, $GENERATE ×3, $INCLUDE ×5) × origins {\"\",\".\",\"example.\"} × default TTL {unset,77} × (includes {off,MapFS,disk} when the program has an $INCLUDE) × plain rendering and every rendering with one lexical deviation; non-trivial: a record depends on an earlier line (omitted owner/TTL, or follows a directive)", len(full)), true,
+	c.Space("prog-full2", fmt.Sprintf("all programs of 1 and 2 lines over the full line alphabet (%d lines: 5 owner spellings incl. omitted × 28 TTL/class headers incl. both orders; MX/TXT/SOA/NS/CNAME lines incl. relative names ending in an escaped dot; $ORIGIN ×4, $TTL ×5, $GENERATE ×3, $INCLUDE ×5) × origins {\"\",\".\",\"example.\"} × default TTL {unset,77} × (includes {off,MapFS,disk} when the program has an $INCLUDE) × plain rendering and every rendering with one lexical deviation; non-trivial: a record depends on an earlier line (omitted owner/TTL, or follows a directive)", len(full)), true,
 		func(emit func(func(*fw.R))) {
 			for i := range full {
 				i := i
